@@ -325,9 +325,9 @@ static bool real_dict_add_key(struct JsonContext *ctx, struct JsonValue *dict, s
 	if (json_value_size(key) > JSON_MAX_KEY)
 		return err_false(ctx, "Too large key");
 
-	dict->u.v_size++;
 	if (!cbtree_insert(tree, key))
 		return err_false(ctx, "Key insertion failed");
+	dict->u.v_size++;
 
 	return true;
 }
